@@ -3,6 +3,7 @@ package rules
 import (
 	"fmt"
 	"go/constant"
+	"go/token"
 	"go/types"
 	"sort"
 	"strings"
@@ -284,6 +285,137 @@ func runC16(p *core.Prog, r *core.Report, tier string) {
 		}
 	}
 	r.Count("rand bound call sites", nH)
+
+	// ---- (i) only successful results are remembered ----
+	// a value obtained from a call that also returned an error is stored into a long-lived map (package variable or
+	// struct field) only on the edge where the error is nil: a nil result cached after a failure is handed out as a
+	// success by every later lookup and dereferenced by its users
+	nI := 0
+	for _, f := range fns {
+		core.EachInstr(f, func(in ssa.Instruction) {
+			mu, ok := in.(*ssa.MapUpdate)
+			if !ok {
+				return
+			}
+			longLived := false
+			switch m := mu.Map.(type) {
+			case *ssa.UnOp:
+				if _, isG := m.X.(*ssa.Global); isG {
+					longLived = true
+				}
+				if _, ok := core.FieldOfValue(m); ok {
+					longLived = true
+				}
+			}
+			if !longLived {
+				return
+			}
+			for _, lf := range core.PhiLeaves(mu.Value, mu) {
+				ex, ok := lf.V.(*ssa.Extract)
+				if !ok || ex.Index != 0 {
+					continue
+				}
+				call, ok := ex.Tuple.(*ssa.Call)
+				if !ok {
+					continue
+				}
+				res := call.Call.Signature().Results()
+				if res.Len() < 2 || !core.IsErrorType(res.At(res.Len()-1).Type()) {
+					continue
+				}
+				errV := core.ExtractOf(call, res.Len()-1)
+				if errV == nil {
+					continue
+				}
+				nI++
+				w := core.Unguarded(ds, f, call, func(x ssa.Instruction) bool { return x == in }, func(c core.Cond) int { return core.ErrNilSucc(c, errV) })
+				r.Check(w == nil, "C16.i", fmt.Sprintf("%s|remembers-only-success|%s", core.FnKey(f), core.CalleeName(call.Common())), p.Pos(mu.Pos()), "the result is remembered only when the call succeeded",
+					"the result of "+core.CalleeName(call.Common())+" is stored in a long-lived map on a path where its error was not tested nil: after a failure the (nil) result is remembered and returned as a success to every later caller, who dereferences it", p.WitnessText(w)...)
+			}
+		})
+	}
+	r.Count("remembered call results", nI)
+	r.Floor("C16.i remembered call results", nI, 1)
+
+	// ---- (j) a quotient used as a divisor is clamped ----
+	// x / y is 0 whenever x < y; dividing or taking a remainder by such a quotient panics unless it was replaced by a
+	// non-zero value first (`if q == 0 { q = 1 }`)
+	nJ := 0
+	for _, f := range fns {
+		core.EachInstr(f, func(in ssa.Instruction) {
+			bo, ok := in.(*ssa.BinOp)
+			if !ok || (bo.Op != token.REM && bo.Op != token.QUO) {
+				return
+			}
+			if b, ok := bo.Type().Underlying().(*types.Basic); !ok || b.Info()&types.IsInteger == 0 {
+				return
+			}
+			bad := ""
+			quotient := false
+			for _, lf := range core.PhiLeaves(bo.Y, bo) {
+				q, ok := lf.V.(*ssa.BinOp)
+				if !ok || q.Op != token.QUO {
+					continue
+				}
+				// quotients of two configuration values (service fields filled from the chain specification at
+				// construction) are constants of the chain; only a quotient with a per-call operand is data
+				onlyConfig := true
+				ds.D(q).Walk(func(x *core.VD) bool {
+					switch x.Kind {
+					case "binop", "const", "convert":
+					case "field":
+						if len(x.Args) == 1 && x.Args[0].Kind == "param" {
+							return false
+						}
+						onlyConfig = false
+					default:
+						onlyConfig = false
+					}
+					return true
+				})
+				if onlyConfig {
+					continue
+				}
+				quotient = true
+				// the raw quotient reaches the division: it must have been tested non-zero on that edge
+				w := core.UnguardedLeaf(ds, f, nil, lf, func(c core.Cond) int {
+					if c.Op == "" || c.X == nil || c.Y == nil {
+						return -1
+					}
+					var o, k *core.VD
+					if c.Y.Kind == "const" {
+						o, k = c.X, c.Y
+					} else if c.X.Kind == "const" {
+						o, k = c.Y, c.X
+					} else {
+						return -1
+					}
+					if o.Val != ssa.Value(q) || k.Name != "0" {
+						return -1
+					}
+					for s := 0; s < 2; s++ {
+						rel := c.RelOnEdge(s)
+						if rel == "!=" || rel == ">" {
+							return s
+						}
+					}
+					return -1
+				})
+				if w != nil {
+					bad = ds.D(q).String()
+				}
+			}
+			if !quotient {
+				return
+			}
+			nJ++
+			r.Check(bad == "", "C16.j", fmt.Sprintf("%s|divisor-is-quotient#%d", core.FnKey(f), nJ), p.Pos(bo.Pos()), "the quotient is replaced by a non-zero value before it divides",
+				"the divisor "+bad+" is itself a quotient and can be 0 (numerator smaller than denominator): integer divide by zero")
+		})
+	}
+	r.Count("divisions by a quotient", nJ)
+	r.Floor("C16.j divisions by a quotient", nJ, 1)
+	r.Assumptions = append(r.Assumptions, "quotients of chain-specification constants held in service fields (sync committee size / subnet count / target aggregators) are not zero on a real chain")
 	sort.Strings(r.OutOfScope)
 }
 
